@@ -20,6 +20,13 @@ NA = {
 }
 
 CHECKS = {
+ "C11": dict(
+   level="exploration",
+   text="Seeded runs of the real binary on documents of all ten input formats that are valid or damaged by 1-3 storage faults (truncation, bit flip, zeroed/duplicated/stale/inserted block), delivered under seeded short-read schedules with optional read EIO / write errors, with grammar-generated, probe and damaged (--from-file) expressions and every output format; oracles: exit in {0,1}, no panic/fatal/goroutine dump/foreign signal, termination within a hook-counted step budget (wall-clock backstop for third-party parsers), exit 1 implies a message. The healthy-input x arbitrary-expression clause is only reached by the fault-free configuration and is not claimed as decided. Sampling: evidence, not proof.",
+   ref="DESIGN.md §5.2",
+   note="Trusted: panic detection by exit status and goroutine dump on stderr; the step budget counts hook events (operator dispatches, reads, writes); RLIMIT_AS 4 GiB is a guard, not a fault.",
+   technique="deterministic process-level storage-fault simulation: seeded byte damage, short reads, read/write errors against the real binary, crash and bounded-liveness (step budget) oracles, known findings keyed by panic class + function",
+   engine="procsim"),
  "C19": dict(
    level="exploration",
    text="Seeded multi-file/multi-document runs of the real binary in twelve variants: read EIO at a byte of an input, write ENOSPC/EIO with partial write at a byte of stdout and the real /dev/full, unopenable input at an argument position (missing, directory, errno), decode/evaluation failure generated at document (i,j), completeness of exit-0 runs against per-document references, -e, -n, format auto-detection; fault positions are drawn inside the ranges observed in a fault-free traced pre-run. The encoder-domain and -0 clauses run as the fault-free configuration and are not claimed to be decided by simulation. Sampling: evidence, not proof.",
